@@ -517,8 +517,16 @@ func init() {
 					sp.Slots = []c06Slot{mkSlot(1), mkSlot(0)}
 				}
 			}
+			// bytes behind a top-level OP_RETURN (after Genesis part of the script code, rewritten for the
+			// original hashing algorithm) and operand pushes consumed in front of the check
+			if scriptflag.Flag(fl)&scriptflag.UTXOAfterGenesis != 0 && r.Chance(1, 3) {
+				sp.LockTail = prng.Pick(r, [][]byte{{0x6a, 0x51, 0xab, 0x52, 0xab, 0x53}, {0x6a, 0xab, 0x01, 0x02}, {0x6a, 0x01, 0xab, 0xab}, {0x6a, 0x61, 0x61, 0xab}, {0x6a, 0x42}, {0x6a, 0x51, 0xab}})
+			}
+			if r.Chance(1, 4) {
+				sp.LockHead = prng.Pick(r, c06Heads)
+			}
 			cs := c06Make(r, sp)
-			cs.Desc = fmt.Sprintf("%s m=%d n=%d sep=%d/%s slots=%+v keyenc=%v flags=%#x", sp.Kind, sp.M, sp.N, sp.SepPos, sp.SepKind, sp.Slots, sp.KeyEnc, sp.Flags)
+			cs.Desc = fmt.Sprintf("%s m=%d n=%d sep=%d/%s slots=%+v keyenc=%v flags=%#x locktail=%x lockhead=%x", sp.Kind, sp.M, sp.N, sp.SepPos, sp.SepKind, sp.Slots, sp.KeyEnc, sp.Flags, sp.LockTail, sp.LockHead)
 			sigJudge(c, cs)
 		}
 		c.Phase("vectors")
